@@ -240,7 +240,10 @@ def backendTerminate (s : BState) (c : ConnId) : BState :=
     | some b => s.setSessOf c { b with active := none }
     | none => s
   let id : ClientId := match s.conn? c with | some x => x.id | none => []
-  { s with temp := Assoc.del s.temp c, activeClients := Assoc.del s.activeClients id }
+  -- the saved client is removed only if the id has not been taken by another client since
+  { s with temp := Assoc.del s.temp c,
+           activeClients := if Assoc.get s.activeClients id = some c then Assoc.del s.activeClients id
+                            else s.activeClients }
 
 /-- A dying dequeuer that holds a token may still take one queued message (Go `select` picks
     freely between a ready queue and `Closing()`): it is stored as outgoing (QoS > 0 after capping;
